@@ -11,6 +11,43 @@ ASSUME = [
 ]
 
 
+def _drop_object(evs):
+    """the observation loses one object the history created"""
+    for e in evs:
+        if e.get("op") == "observe" and e.get("open") == "ok" and len(e.get("tree", [])) >= 2:
+            victim = e["tree"][-1]
+            e["tree"] = e["tree"][:-1]
+            e.get("ds", {}).pop(victim["p"], None)
+            e.get("gattrs", {}).pop(victim["p"], None)
+            return evs
+    return None
+
+
+def _alter_value(evs):
+    """one element value digest of a written dataset is altered"""
+    for e in evs:
+        if e.get("op") == "observe" and e.get("open") == "ok":
+            for p, d in e.get("ds", {}).items():
+                for r in ("f64", "str", "cmp"):
+                    if d[r]["res"] == "ok" and d[r]["data"]["n"] > 0:
+                        d[r]["data"]["dig"] = "x00" + d[r]["data"]["dig"][3:] if not d[r]["data"]["dig"].startswith("x00") else "x11" + d[r]["data"]["dig"][3:]
+                        d[r]["data"]["vals"] = [v + 1 for v in d[r]["data"]["vals"]]
+                        return evs if any(o.get("op") == "write" and o.get("res") == "ok" for o in evs) else None
+    return None
+
+
+def _flip_result(evs):
+    """a create call that succeeded is recorded as refused"""
+    for e in evs:
+        if e.get("op") in ("mkds", "mkgroup") and e.get("res") == "ok":
+            e["res"], e["msg"] = "err", "altered"
+            return evs
+    return None
+
+
+CORRUPTORS = [("observation-loses-an-object", _drop_object), ("create-result-flipped", _flip_result)]
+
+
 def run_logical(ctx, level, models, extra_cases=None, nontrivial=None, rule="", sim=None, sample_filter=None, extra_cov=None):
     """models: list of (module, cfg) generator configurations (each also model-checks its invariants).
     extra_cases: list of additional case dicts (seeded random drivers).
@@ -43,6 +80,7 @@ def run_logical(ctx, level, models, extra_cases=None, nontrivial=None, rule="", 
     verdict, vs = ctx.validate("H5LogicalTrace.tla", "H5Logical_trace.cfg", trace)
     bad = verdict["bad"]
     nviol, known = H.report(ctx, bad, lambda i: cases[i], trace)
+    selftest = H.binding_selftest(ctx, "H5LogicalTrace.tla", "H5Logical_trace.cfg", trace, CORRUPTORS)
     nt = nontrivial or (lambda c: len(c["ops"]) >= 2)
     distinct = len({H.nontrivial_hash(c) for c in cases if nt(c)})
     samples = [cases[0], cases[min(len(cases) - 1, ngen // 2)]]
@@ -67,6 +105,7 @@ def run_logical(ctx, level, models, extra_cases=None, nontrivial=None, rule="", 
         "rejected_cases": len(bad),
         "known_findings_matched": known,
         "exhaustive": False,
+        "binding_selftest": selftest,
     }
     if extra_cov:
         cov.update(extra_cov)
